@@ -111,3 +111,60 @@ Theorem gen_t_test_0_monotone (cdf : R -> R) (e1 e2 v : R) : (forall x y, x <= y
 Proof.
   intros Hm He. rewrite !t_test_0_tie. cbn [t_zero map2 map nth]. apply one_sided_p_monotone; assumption.
 Qed.
+
+Local Open Scope R_scope.
+(* ---- t_test_nc: entry i of the two-sided p-values against the noise ceiling, as generated from the loop body ---- *)
+Lemma py_abs_R x : py_abs ROps x = Rabs x.
+Proof.
+  unfold py_abs. cbn [nleb n0 nsub ROps]. destruct (Rle_dec 0 x) as [H|H].
+  - rewrite Rabs_right by lra. reflexivity.
+  - rewrite Rabs_left by lra. lra.
+Qed.
+
+Theorem t_test_nc_entry_tie (cdf : R -> R) (m v nc : R) :
+  Gen_C06.t_test_nc_entry ROps cdf m v nc (feps ROps) = p_two cdf (tstat ROps (m - nc) v).
+Proof.
+  unfold Gen_C06.t_test_nc_entry, p_two, tstat. cbv zeta. rewrite py_abs_R. cbn [nmul nsub ndiv nofZ ROps]. reflexivity.
+Qed.
+
+(* the vector the loop fills (entry i from evaluations[i] and variances[i]) is the model's p-values of t_nc *)
+Theorem t_test_nc_tie (cdf : R -> R) (ev var : list R) (nc : R) :
+  map2 (fun m v => Gen_C06.t_test_nc_entry ROps cdf m v nc (feps ROps)) ev var = map (p_two cdf) (t_nc ROps ev var nc).
+Proof.
+  unfold t_nc. revert var. induction ev as [|m ev IH]; intros [|v var]; try reflexivity.
+  cbn [map2 map]. rewrite IH, t_test_nc_entry_tie. reflexivity.
+Qed.
+
+(* in [0,1] for every symmetric distribution function; 1 exactly at the ceiling; the same p-value for a model as far
+   below the ceiling as another is above it; further away never gives a larger p-value *)
+Theorem gen_t_test_nc_range (cdf : R -> R) (m v nc : R) :
+  (forall x y, x <= y -> cdf x <= cdf y)%R -> (forall x, 0 <= cdf x <= 1)%R -> (forall x, cdf (- x) = 1 - cdf x)%R ->
+  (0 <= Gen_C06.t_test_nc_entry ROps cdf m v nc (feps ROps) <= 1)%R.
+Proof. intros Hm Hr Hs. rewrite t_test_nc_entry_tie. apply p_two_range; assumption. Qed.
+
+Theorem gen_t_test_nc_at_ceiling (cdf : R -> R) (v nc : R) : (forall x, cdf (- x) = 1 - cdf x)%R ->
+  Gen_C06.t_test_nc_entry ROps cdf nc v nc (feps ROps) = 1%R.
+Proof.
+  intros Hs. rewrite t_test_nc_entry_tie. unfold tstat. cbn [nsub ndiv ROps].
+  replace ((nc - nc) / nsqrt ROps (nmax ROps v (feps ROps)))%R with 0%R by (unfold Rdiv; ring).
+  apply p_two_zero. exact Hs.
+Qed.
+
+Theorem gen_t_test_nc_symmetric (cdf : R -> R) (d v nc : R) :
+  Gen_C06.t_test_nc_entry ROps cdf (nc - d) v nc (feps ROps) = Gen_C06.t_test_nc_entry ROps cdf (nc + d) v nc (feps ROps).
+Proof.
+  rewrite !t_test_nc_entry_tie. unfold tstat. cbn [nsub ndiv ROps].
+  replace ((nc - d - nc) / nsqrt ROps (nmax ROps v (feps ROps)))%R with (- ((nc + d - nc) / nsqrt ROps (nmax ROps v (feps ROps))))%R
+    by (unfold Rdiv; ring).
+  apply p_two_sym.
+Qed.
+
+Theorem gen_t_test_nc_antitone (cdf : R -> R) (d1 d2 v nc : R) : (forall x y, x <= y -> cdf x <= cdf y)%R ->
+  (Rabs d1 <= Rabs d2)%R ->
+  (Gen_C06.t_test_nc_entry ROps cdf (nc + d2) v nc (feps ROps) <= Gen_C06.t_test_nc_entry ROps cdf (nc + d1) v nc (feps ROps))%R.
+Proof.
+  intros Hm Hd. rewrite !t_test_nc_entry_tie. apply p_two_antitone; [exact Hm|].
+  unfold tstat. cbn [nsub ndiv ROps]. set (s := nsqrt ROps (nmax ROps v (feps ROps))).
+  replace (nc + d1 - nc)%R with d1 by ring. replace (nc + d2 - nc)%R with d2 by ring.
+  unfold Rdiv. rewrite !Rabs_mult. apply Rmult_le_compat_r; [apply Rabs_pos|exact Hd].
+Qed.
